@@ -6,8 +6,10 @@ package limiter
 import (
 	"sync"
 
+	gatewayclientset "github.com/kubewharf/kubegateway/pkg/client/kubernetes"
 	"github.com/kubewharf/kubegateway/pkg/ratelimiter/limiter/controller"
 	"github.com/kubewharf/kubegateway/pkg/ratelimiter/limiter/elector"
+	"github.com/kubewharf/kubegateway/pkg/ratelimiter/options"
 	_interface "github.com/kubewharf/kubegateway/pkg/ratelimiter/store/interface"
 )
 
@@ -33,4 +35,33 @@ func VerifC16NewRateLimiter(le elector.LeaderElector, uc controller.UpstreamCont
 // VerifC16Handle is the upstream controller's handler.
 func VerifC16Handle(r RateLimiter) controller.UpstreamClusterHandler {
 	return r.(*rateLimiter).UpstreamConditionHandler
+}
+
+// VerifC16NewReplica builds a limiter-server replica that creates its stores itself, the way the real one does when
+// it starts leading a shard: store kind "local" or "k8s" (over gatewayClient, no periodic flusher: it flushes when
+// it stops leading), one shard.
+func VerifC16NewReplica(le elector.LeaderElector, uc controller.UpstreamController, gatewayClient gatewayclientset.Interface, storeKind string) RateLimiter {
+	return &rateLimiter{
+		runId:              "verif",
+		identity:           "verif",
+		shardCount:         1,
+		limitOptions:       options.RateLimitOptions{ShardingCount: 1, LimitStore: storeKind, Identity: "verif"},
+		gatewayClient:      gatewayClient,
+		leaderElector:      le,
+		clientCache:        NewClientCache(),
+		limitStoreMap:      map[int]_interface.LimitStore{},
+		upstreamLock:       map[string]*sync.Mutex{},
+		upstreamController: uc,
+	}
+}
+
+// VerifC16StartLeading / VerifC16StopLeading are the leader elector's callbacks: startLeading creates the shard's
+// store, Load()s it and re-applies every upstream cluster of the shard (syncUpstreamClustersForShard);
+// stopLeading drops the store and stops it (the k8s store flushes).
+func VerifC16StartLeading(r RateLimiter, shard int) { r.(*rateLimiter).startLeading(shard) }
+func VerifC16StopLeading(r RateLimiter, shard int)  { r.(*rateLimiter).stopLeading(shard) }
+
+// VerifC16Store returns the store of a shard (nil when the replica does not lead it).
+func VerifC16Store(r RateLimiter, shard int) _interface.LimitStore {
+	return r.(*rateLimiter).getLimitStoreForShard(shard)
 }
